@@ -213,6 +213,9 @@ func checkPlainGraph(run *core.Run, m *openfgav1.AuthorizationModel, rebuilds in
 		run.Violation("reversal-keeps-drawing-direction", c, "direction flipped", "same direction")
 	}
 	dot := g.GetDOT()
+	if again := g.GetDOT(); again != dot {
+		run.Violation("dot-differs-between-calls-on-one-graph", c, dot, again)
+	}
 	rr, err := rev.Reversed()
 	if err != nil {
 		run.Violation("reversed-fails", c, "a reversed graph", err.Error())
